@@ -601,12 +601,28 @@ func runR157(c *core.Ctx, rule string) {
 			c.OK(rule, key, c.P.Pos(acq.Pos()), "the handler value is not used")
 			continue
 		}
+		// the handler value and the local cells it is spilled to (variables captured by the connection's goroutine)
+		cells := map[ssa.Value]bool{}
+		for _, r := range *hv.Referrers() {
+			if st, ok := r.(*ssa.Store); ok && st.Val == hv {
+				cells[st.Addr] = true
+			}
+		}
 		used := ""
 		for _, st := range failureStarts(e, las) {
 			hit, _ := (ssax.Reach{
 				Target: func(ins ssa.Instruction) bool {
+					if _, isStore := ins.(*ssa.Store); isStore {
+						return false
+					}
 					for _, op := range ins.Operands(nil) {
-						if op != nil && *op != nil && *op == hv {
+						if op == nil || *op == nil {
+							continue
+						}
+						if *op == hv {
+							return true
+						}
+						if u, ok := (*op).(*ssa.UnOp); ok && u.Op == token.MUL && cells[u.X] {
 							return true
 						}
 					}
